@@ -75,7 +75,7 @@ def to_f32(t):
 
 
 def run_wavesim(c, delays, sims, caps, reuse, strip, s0, s1, s2, extra, tcap=None, a_ctrl=None, cuda=False, prop_sims=None,
-                simctl=None, seed=1, warm=None, repickle=None):
+                simctl=None, seed=1, warm=None, repickle=None, pre_extra=None):
     """warm = (s0, s1, s2, extra) of an EARLIER round simulated on the same simulator object (assign, direct waveform writes,
     propagate, capture) before the round proper: a simulator is allocated once and used for many batches, so nothing of an earlier
     round may survive into the next one.  w.abuf_warm is the accumulator content after the earlier round."""
@@ -106,6 +106,22 @@ def run_wavesim(c, delays, sims, caps, reuse, strip, s0, s1, s2, extra, tcap=Non
             if loc >= 0:
                 for j, t in enumerate(wf):
                     w.c[loc + j, lane] = to_f32(t)
+        if pre_extra is not None:
+            # the simulator first propagates OTHER directly written waveforms at the same positions (assignment done once), is captured,
+            # then gets the waveforms proper written into its memory -- no second s_to_c -- and propagates again
+            for (p, lane), wf in pre_extra.items():
+                loc = w.c_locs[w.ppi_offset + p]
+                if loc >= 0:
+                    for j, t in enumerate(wf):
+                        w.c[loc + j, lane] = to_f32(t)
+            w.c_prop(seed=seed)
+            w.c_to_s(time=wave_sim.TMAX)
+            w.abuf_warm = np.array(w.abuf).copy() if w.abuf_len > 0 else None
+            for (p, lane), wf in extra.items():
+                loc = w.c_locs[w.ppi_offset + p]
+                if loc >= 0:
+                    for j, t in enumerate(wf):
+                        w.c[loc + j, lane] = to_f32(t)
         if repickle is not None:
             # a simulator is sent to a worker process / copied before it propagates: pickle round trip or deepcopy of the assigned simulator
             import pickle, copy
